@@ -714,6 +714,43 @@ func c06File(c *eng.Ctx) {
 	if n == 0 {
 		c.Undecided("R-C06-7", nil, 0, "audit file creation", "no file-creating call in package audit")
 	}
+	// the sink a file-backed writer is built on can be synced: Writer.Sync
+	// finds Sync by a type assertion, which a wrapper around the file silently
+	// defeats (records would be acknowledged without reaching the disk)
+	nw := c.P.Func("audit", "New")
+	for _, f := range c.P.PkgFuncs("audit") {
+		opens := false
+		eng.Instrs(f, func(in ssa.Instruction) {
+			if call, ok := in.(*ssa.Call); ok && eng.CalleeIs(&call.Call, "os", "OpenFile") {
+				opens = true
+			}
+		})
+		if !opens || nw == nil {
+			continue
+		}
+		eng.Instrs(f, func(in ssa.Instruction) {
+			call, ok := in.(*ssa.Call)
+			if !ok || eng.Callee(&call.Call) != nw || len(call.Call.Args) != 1 {
+				return
+			}
+			var dyn types.Type
+			if mi, isMI := call.Call.Args[0].(*ssa.MakeInterface); isMI {
+				dyn = mi.X.Type()
+			} else {
+				dyn = call.Call.Args[0].Type()
+			}
+			hasSync := false
+			ms := c.P.SSA.MethodSets.MethodSet(dyn)
+			for i := 0; i < ms.Len(); i++ {
+				if ms.At(i).Obj().Name() == "Sync" {
+					if sg, isSig := ms.At(i).Type().(*types.Signature); isSig && sg.Params().Len() == 0 && sg.Results().Len() == 1 && eng.IsErrorType(sg.Results().At(0).Type()) {
+						hasSync = true
+					}
+				}
+			}
+			c.Check(hasSync, "R-C06-7", f, in.Pos(), "sink of the file-backed writer: "+eng.TypeShort(dyn), "a type with Sync() error (the file itself): every record is fsynced before it is acknowledged", "the method set of "+eng.TypeShort(dyn)+" has no Sync() error")
+		})
+	}
 }
 
 // c06Principal: R-C06-8.
